@@ -177,14 +177,17 @@ func (cf *CloudflarePublisher) PublishECH(ctx context.Context, records []Target,
 		params := strings.Split(v.Data.Value, " ")
 		var newParams []string
 		var oldValue string
+		var echCount int
 		for _, p := range params {
 			if k, v, ok := strings.Cut(p, "="); ok && k == "ech" {
 				oldValue = strings.Trim(v, `"`)
+				echCount++
 				continue
 			}
 			newParams = append(newParams, p)
 		}
-		if newValue == oldValue {
+		// The value is only current if it holds the config list exactly once.
+		if newValue == oldValue && echCount == 1 {
 			result.Code = StatusNoChange
 			results = append(results, result)
 			continue
